@@ -1,6 +1,7 @@
 package vc
 
 import (
+	"go/constant"
 	"strings"
 	"fmt"
 	"go/types"
@@ -70,6 +71,7 @@ func init() {
 		"(*sync/atomic.Bool).Load":  intrAtomicLoad,
 		"fmt.Errorf":                intrNonNilError,
 		"fmt.Sprintf":               intrSprintf,
+		"strings.Replace":           intrStringsReplace,
 		"errors.New":                intrNonNilError,
 		"math.IsNaN": func(c *Ctx, st *State, fr *Frame, ins ssa.Instruction, f *ssa.Function, res ssa.Value, args []Value) []cont {
 			a := c.toTerm(st, args[0])
@@ -464,4 +466,49 @@ func (c *Ctx) allocatesType(fn *ssa.Function, t types.Type) bool {
 		c.allocCache[fn] = m
 	}
 	return m[c.Reg.TypeKey(t)]
+}
+
+// strings.Replace(s, old, new, n): n == 1 is SMT-LIB str.replace (first occurrence; an empty
+// old inserts at the front in both), n < 0 is str.replace_all for a non-empty old. Other counts
+// give an unknown string.
+func intrStringsReplace(c *Ctx, st *State, fr *Frame, ins ssa.Instruction, f *ssa.Function, res ssa.Value, args []Value) []cont {
+	if res == nil {
+		return one(st, fr)
+	}
+	var call *ssa.CallCommon
+	if x, ok := ins.(*ssa.Call); ok {
+		call = &x.Call
+	}
+	fresh := func() []cont {
+		fr.regs[res] = c.FreshConst(st, "replace", SString)
+		return one(st, fr)
+	}
+	if call == nil || len(args) != 4 {
+		return fresh()
+	}
+	k, ok := call.Args[3].(*ssa.Const)
+	if !ok || k.Value == nil {
+		return fresh()
+	}
+	n, exact := constant.Int64Val(constant.ToInt(k.Value))
+	if !exact {
+		return fresh()
+	}
+	s0, old, nw := c.toTerm(st, args[0]), c.toTerm(st, args[1]), c.toTerm(st, args[2])
+	switch {
+	case n == 1:
+		// stated by the two cases solvers can actually use (old is a prefix; old does not occur);
+		// the general definition (str.replace) makes the string solvers diverge and is left out
+		r := c.FreshConst(st, "replace", SString)
+		st.Assume(T(SBool, "(=> (str.prefixof %s %s) (= %s (str.++ %s (str.substr %s (str.len %s) (- (str.len %s) (str.len %s))))))", old.S, s0.S, r.S, nw.S, s0.S, old.S, s0.S, old.S))
+		st.Assume(T(SBool, "(=> (not (str.contains %s %s)) (= %s %s))", s0.S, old.S, r.S, s0.S))
+		fr.regs[res] = r
+	case n < 0:
+		r := c.FreshConst(st, "replace", SString)
+		st.Assume(T(SBool, "(=> (not (= %s \"\")) (= %s (str.replace_all %s %s %s)))", old.S, r.S, s0.S, old.S, nw.S))
+		fr.regs[res] = r
+	default:
+		return fresh()
+	}
+	return one(st, fr)
 }
